@@ -416,6 +416,33 @@ func (ex *Exec) strLen(s *StrV) *Term {
 func (ex *Exec) callExternalMore(name string, f *FuncV, args []Value, st *State, site *ast.CallExpr) (Value, bool) {
 	ts := ex.ts
 	switch name {
+	case "github.com/seekerror/stdlib/pkg/util/mathx.Max", "github.com/seekerror/stdlib/pkg/util/mathx.Min":
+		// generic integer maximum / minimum of two values (documented meaning)
+		// variadic: the arguments arrive as one slice of known length
+		_, signed, isInt := intInfo(ex.typeOf(site))
+		if !isInt || len(args) != 1 {
+			return nil, false
+		}
+		sl, ok := args[0].(*SliceV)
+		if !ok || sl.Nil || sl.Len == 0 {
+			return nil, false
+		}
+		back := ex.load(st, sl.Loc).(*ArrayV)
+		ex.assumptions["mathx.Max/Min on integers modelled by their documented meaning"] = true
+		acc := back.Elems[sl.Off].(*Term)
+		for i := 1; i < sl.Len; i++ {
+			b := back.Elems[sl.Off+i].(*Term)
+			lt := ts.BVCmp(OpBVUlt, acc, b)
+			if signed {
+				lt = ts.BVCmp(OpBVSlt, acc, b)
+			}
+			if strings.HasSuffix(name, ".Max") {
+				acc = ts.Ite(lt, b, acc)
+			} else {
+				acc = ts.Ite(lt, acc, b)
+			}
+		}
+		return acc, true
 	case "sync/atomic.LoadPointer", "sync/atomic.CompareAndSwapPointer", "sync/atomic.StorePointer":
 		// sequential meaning on the slice element the address denotes
 		ea, ok := args[0].(*ElemAddrV)
